@@ -321,9 +321,13 @@ def task(t):
     for rest in itertools.product(grid, repeat=n - len(prefix)):
         eval_pointset(pre + rest, d, spec, cov, found)
     _x(cov, "pointsets", len(grid) ** (n - len(prefix)))
-    if prefix in ((), (0,), (0, 0)) and n >= 3:
-        P = pre + tuple(grid[(3 * k + 1) % len(grid)] for k in range(n - len(prefix)))
-        cov.sample({"fn": "nondominated_sort", "points": [list(p) for p in P], "layers": layers(P)})
+    if d >= 2 and n >= 3 and all(i == 0 for i in prefix):
+        P = pre + tuple(grid[(2 * k * k + 3 * k + 1) % len(grid)] for k in range(n - len(prefix)))
+        X = np.array(P, dtype=float).reshape(n, d)
+        st, res = _call(lambda: ndp.nondominated_sort(X, dim=0, flatten=False))
+        st2, m = _call(lambda: ndp.pareto_efficient(X).tolist())
+        cov.sample({"points": [list(p) for p in P], "reference_layers": layers(P), "pareto_efficient": m if st2 == "ok"
+                    else repr(m), "nondominated_sort(dim=0,flatten=False)": res if st == "ok" else repr(res)})
     return cov, list(found.values())
 
 
